@@ -28,7 +28,7 @@ def replay(check, witnesses, consts, limit=None, rng=None):
     for w, prog, (log, outcome) in zip(ws, progs, results):
         check.programs += 1
         if 'exp' in w:
-            real = [e for e in log if e['e'] != 'fin']
+            real = [{k: v for k, v in e.items() if k not in ('due', 'never')} for e in log if e['e'] != 'fin']
             if w.get('term', True):
                 differs = real != w['exp'] or (outcome['k'] == 'ok') != (w.get('fault', '') == '')
             else:       # witness of an intermediate state: the model's events are a prefix
@@ -46,8 +46,8 @@ def replay(check, witnesses, consts, limit=None, rng=None):
 
 
 def _run_one(args):
-    prog, nroots = args
-    return puppet.run_program(prog, nroots=nroots)
+    prog, nroots, start = args
+    return puppet.run_program(prog, nroots=nroots or len(prog), start=start)
 
 
 # generic form of the runner used by the property modules
@@ -59,17 +59,25 @@ def explore(check, obs, configs, limit=None, invariants=('NoFault', 'NoForeignSi
         ws = check.witnesses(label, consts, emit='EmitOps', invariants=list(invariants),
                              coverage=check.tier == 'thorough')
         runs += [(p, t, consts['NRoots']) for p, t in replay(check, ws, consts, limit=limit)]
-    for idx, clause, pos in check.validate(obs, [r[1] for r in runs]):
-        check.report(clause, runs[idx][0], runs[idx][1], pos, extra={'NRoots': runs[idx][2]})
-    check.samples = [{'program': r[0], 'trace': r[1][:14]} for r in runs[:: max(1, len(runs) // 3)][:3]]
+    if obs is not None:
+        judge(check, obs, runs)
     return runs
 
 
-def run_many(progs, nroots, procs=16):
+def judge(check, obs, runs):
+    """TLC validates the recorded traces against the property monitor: the verdict"""
+    for idx, clause, pos in check.validate(obs, [r[1] for r in runs]):
+        check.report(clause, runs[idx][0], runs[idx][1], pos, extra={'NRoots': runs[idx][2]})
+    check.samples = [{'program': r[0], 'trace': r[1][:14]} for r in runs[:: max(1, len(runs) // 3)][:3]]
+
+
+def run_many(progs, nroots, procs=16, starts=None):
     """execute programs on the real code in worker processes (each simulation is independent)"""
+    starts = starts or [0] * len(progs)
+    jobs = [(p, nroots, s) for p, s in zip(progs, starts)]
     if len(progs) < 2000:
-        return [puppet.run_program(p, nroots=nroots) for p in progs]
+        return [_run_one(j) for j in jobs]
     import multiprocessing
     ctx = multiprocessing.get_context('fork')
     with ctx.Pool(procs) as pool:
-        return pool.map(_run_one, [(p, nroots) for p in progs], chunksize=500)
+        return pool.map(_run_one, jobs, chunksize=200)
